@@ -32,6 +32,11 @@ pub enum WP {
     Interrupted(usize),
     /// one transient error at this position (kind index into ERR_KINDS), then the stream accepts again
     ErrOnce(usize, u8),
+    /// before this message `shutdown()` is called on the layer object (a no-op on a raw link: the stream still accepts)
+    AfterShutdown,
+    /// before this message a read on the layer object hits the end of the inbound stream (the peer half-closed; the
+    /// outbound direction still accepts)
+    AfterReadEof,
 }
 
 #[derive(Clone, Debug, Serialize)]
@@ -148,6 +153,16 @@ impl Prop for C14 {
                 }
             }
         }
+        // C2: a message, then shutdown() / a read hitting the end of the inbound stream, then another message on the same object
+        for layer in [Layer::Tpkt, Layer::Link, Layer::X224] {
+            for len in [0usize, 1, 40, 300] {
+                for pre in [WP::AfterShutdown, WP::AfterReadEof] {
+                    cs.push(Case { layer, len, plan: WP::All, then: vec![(len + 3, pre.clone())] });
+                    cs.push(Case { layer, len, plan: pre.clone(), then: vec![(5, WP::All)] });
+                    cs.push(Case { layer, len, plan: WP::All, then: vec![(7, pre.clone()), (9, pre.clone())] });
+                }
+            }
+        }
         // D: zero-then-progress
         for layer in [Layer::Tpkt, Layer::Link, Layer::X224] {
             for len in [0usize, 1, 5, 300] {
@@ -249,7 +264,7 @@ impl Prop for C14 {
         json!({"idx": idx, "case": self.cases[idx as usize]})
     }
     fn rule(&self) -> String {
-        "cases = (layer in {tpkt, x224, link}, payload length, write behaviour of the stream); lengths 0..70000 all enumerated on an accepting stream; structured messages (every one-field and several three-field shapes of the C18 message model: size-dependent, skippable, optional, nested fields) framed by tpkt::Client::write; short-write caps {1,2,3,4,5,7,8,1024} for every length <= 300 and every 16-bit boundary length; every composition of write sizes for frames <= 12 bytes; zero-length writes; an error injected at every byte position for lengths <= 64 and boundary lengths; EINTR once; one transient error of 10 kinds (WouldBlock, TimedOut, ConnectionReset, ConnectionAborted, BrokenPipe, NotConnected, UnexpectedEof, WriteZero, PermissionDenied, Other) at every byte position after which the stream accepts again; sequences of 2 (3 in thorough) messages on the same layer object, the first one meeting an error before its first byte / after one byte / in mid-frame / on its last byte, one-byte writes, a zero-length write or EINTR, the later ones judged like a first message; plus 18 full real conversations over TLS (NLA on/off) with a transport accepting k bytes per write, k in {1,2,3,5,7,16,1024}, an irregular size sequence, and EINTR. Non-trivial: the stream deviates from accepting everything, or the length is within 8 of a 7/14/15/16-bit boundary or above the frame limit.".into()
+        "cases = (layer in {tpkt, x224, link}, payload length, write behaviour of the stream); lengths 0..70000 all enumerated on an accepting stream; structured messages (every one-field and several three-field shapes of the C18 message model: size-dependent, skippable, optional, nested fields) framed by tpkt::Client::write; short-write caps {1,2,3,4,5,7,8,1024} for every length <= 300 and every 16-bit boundary length; every composition of write sizes for frames <= 12 bytes; zero-length writes; an error injected at every byte position for lengths <= 64 and boundary lengths; EINTR once; one transient error of 10 kinds (WouldBlock, TimedOut, ConnectionReset, ConnectionAborted, BrokenPipe, NotConnected, UnexpectedEof, WriteZero, PermissionDenied, Other) at every byte position after which the stream accepts again; sequences of 2 (3 in thorough) messages on the same layer object, the first one meeting an error before its first byte / after one byte / in mid-frame / on its last byte, one-byte writes, a zero-length write or EINTR, the later ones judged like a first message; a message written after shutdown() or after a read that hit the end of the inbound stream (raw link: the outbound direction still accepts, the frame must go out); plus 18 full real conversations over TLS (NLA on/off) with a transport accepting k bytes per write, k in {1,2,3,5,7,16,1024}, an irregular size sequence, and EINTR. Non-trivial: the stream deviates from accepting everything, or the length is within 8 of a 7/14/15/16-bit boundary or above the frame limit.".into()
     }
     fn assumptions(&self) -> Vec<String> {
         vec![
@@ -341,8 +356,22 @@ impl Prop for C14 {
                     WP::ErrAt(pos, cap) => WritePlan::ErrAt { pos: start + *pos, cap: *cap },
                     WP::Interrupted(k) => WritePlan::InterruptedAt(*k),
                     WP::ErrOnce(pos, kind) => WritePlan::ErrOnceAt { pos: start + *pos, kind: ERR_KINDS[*kind as usize % ERR_KINDS.len()] },
+                    WP::AfterShutdown | WP::AfterReadEof => WritePlan::All,
                 };
             }
+            match (&plan, &mut obj) {
+                (WP::AfterShutdown, Obj::L(l)) => drop(l.shutdown()),
+                (WP::AfterShutdown, Obj::T(t)) => drop(t.shutdown()),
+                (WP::AfterShutdown, Obj::X(x)) => drop(x.shutdown()),
+                (WP::AfterReadEof, Obj::L(l)) => {
+                    let _ = l.read(0);
+                    let _ = l.read(4);
+                }
+                (WP::AfterReadEof, Obj::T(t)) => drop(t.read()),
+                (WP::AfterReadEof, Obj::X(x)) => drop(x.read()),
+                _ => {}
+            }
+            let start = sh.borrow().from_client.len();
             let res = match &mut obj {
                 Obj::L(l) => l.write(&p.clone()).is_ok(),
                 Obj::T(t) => t.write(p.clone()).is_ok(),
